@@ -11,8 +11,9 @@ From Coquelicot Require Import Coquelicot.
 From OV.base Require Import Num.
 From OV.gen Require Import Gen_Mechanics.
 From OV.gen Require Import Gen_TensorMath Gen_LinearElastic.
-From OV.model Require Import M_C15_Newmark M_C15_FE.
-From OV.proofs Require Import L_C15 L_C15fe.
+From OV.model Require Import M_C15_Newmark M_C15_FE M_C15_Purity.
+From OV.gen Require Import CFG_c15.
+From OV.proofs Require Import L_C15 L_C15fe L_C15lin L_C15linfe L_C15pure.
 From OV.proofs Require Import L_C03sn L_C03cert L_C03lift L_C15fe_C03.
 Import ListNotations.
 Local Open Scope R_scope.
@@ -236,6 +237,120 @@ Theorem C15_c03_rigid_translation : forall (A : Type) (p : nat) (nodes : list (R
             (@translation R A cx cy) (@fzero R NumR (@dof A)).
 Proof. exact c03_rigid_translation_exact. Qed.
 
+(* ================================================================================================================
+   LINEARITY / SCALE INVARIANCE of the Newmark update (proofs/L_C15lin.v, L_C15linfe.v).  The regenerated predict / correct are
+   linear maps of their three array arguments for EVERY gamma, beta, dt (no side condition): scaling the state by s scales
+   every output by s, and outputs add.  Any absolute threshold inside them contradicts these statements (cf. the refuted
+   thresholded corrector below). *)
+Theorem C15_predict_homogeneous : forall g b s U V A dt : R,
+  @predict R NumR g b (s * U) (s * V) (s * A) dt
+  = (s * fst (@predict R NumR g b U V A dt), s * snd (@predict R NumR g b U V A dt)).
+Proof. exact predict_homogeneous. Qed.
+Theorem C15_predict_additive : forall g b U V A U' V' A' dt : R,
+  @predict R NumR g b (U + U') (V + V') (A + A') dt
+  = (fst (@predict R NumR g b U V A dt) + fst (@predict R NumR g b U' V' A' dt),
+     snd (@predict R NumR g b U V A dt) + snd (@predict R NumR g b U' V' A' dt)).
+Proof. exact predict_additive. Qed.
+Theorem C15_correct_homogeneous : forall g b s UC V A dt : R,
+  @correct R NumR g b (s * UC) (s * V) (s * A) dt
+  = (s * fst (@correct R NumR g b UC V A dt), s * snd (@correct R NumR g b UC V A dt)).
+Proof. exact correct_homogeneous. Qed.
+Theorem C15_correct_additive : forall g b UC V A UC' V' A' dt : R,
+  @correct R NumR g b (UC + UC') (V + V') (A + A') dt
+  = (fst (@correct R NumR g b UC V A dt) + fst (@correct R NumR g b UC' V' A' dt),
+     snd (@correct R NumR g b UC V A dt) + snd (@correct R NumR g b UC' V' A' dt)).
+Proof. exact correct_additive. Qed.
+(* the new acceleration vanishes ONLY for a zero correction (no dead band) *)
+Theorem C15_correct_acceleration_zero_iff : forall g b UC V A dt : R, b <> 0 -> dt <> 0 ->
+  (snd (@correct R NumR g b UC V A dt) = 0 <-> UC = 0).
+Proof. exact correct_acceleration_zero_iff. Qed.
+(* "flush |UCorrection| <= tau to zero" is not homogeneous, for every tau > 0 *)
+Theorem C15_thresholded_corrector_scale_invariance_refuted : forall tau : R, 0 < tau ->
+  exists s UC V A dt : R,
+    snd (correct_flushed tau (1 / 2) (1 / 4) (s * UC) (s * V) (s * A) dt) <> s * snd (correct_flushed tau (1 / 2) (1 / 4) UC V A dt).
+Proof. exact flushed_corrector_not_homogeneous. Qed.
+(* one step commutes with scaling / addition whenever the minimiser does: any gamma, beta, dt, any index set *)
+Theorem C15_step_homogeneous : forall (I : Type) (g b : R) (solve : @field R I -> R -> @field R I) (s : R) (st : @state R I) (dt : R),
+  (forall Up, solve (@fscal R NumR I s Up) dt = @fscal R NumR I s (solve Up dt)) ->
+  @newmark_step R NumR I g b solve (scaleS I s st) dt = scaleS I s (@newmark_step R NumR I g b solve st dt).
+Proof. exact step_homogeneous. Qed.
+Theorem C15_step_additive : forall (I : Type) (g b : R) (solve : @field R I -> R -> @field R I) (st st' : @state R I) (dt : R),
+  (forall Up Up', solve (@fadd R NumR I Up Up') dt = @fadd R NumR I (solve Up dt) (solve Up' dt)) ->
+  @newmark_step R NumR I g b solve (addS I st st') dt = addS I (@newmark_step R NumR I g b solve st dt) (@newmark_step R NumR I g b solve st' dt).
+Proof. exact step_additive. Qed.
+(* linear elasticity (M positive definite, K >= 0, beta > 0): the stationary point is unique, hence EVERY minimiser oracle is linear
+   and the whole run is a linear map of the initial state -- every gamma, every sequence of non-zero steps *)
+Theorem C15_stationary_point_unique : forall (I : Type) (m k : @field R I -> @field R I -> R), sbf I m -> sbf I k ->
+  forall b : R, 0 < b -> (forall x, 0 <= m x x) -> (forall x, m x x = 0 -> x = @fzero R NumR I) -> (forall x, 0 <= k x x) ->
+  forall (dt : R) (Up U1 U2 : @field R I), dt <> 0 -> stationary_at I m k b dt Up U1 -> stationary_at I m k b dt Up U2 -> U1 = U2.
+Proof. exact stationary_unique. Qed.
+Theorem C15_run_scale_invariant : forall (I : Type) (m k : @field R I -> @field R I -> R), sbf I m -> sbf I k ->
+  forall b : R, 0 < b -> (forall x, 0 <= m x x) -> (forall x, m x x = 0 -> x = @fzero R NumR I) -> (forall x, 0 <= k x x) ->
+  forall solve : @field R I -> R -> @field R I, (forall Up dt, dt <> 0 -> stationary_at I m k b dt Up (solve Up dt)) ->
+  forall (g s : R) (dts : list R) (st : @state R I), (forall dt, In dt dts -> dt <> 0) ->
+  @newmark_run R NumR I g b solve (scaleS I s st) dts = scaleS I s (@newmark_run R NumR I g b solve st dts).
+Proof. exact run_homogeneous. Qed.
+Theorem C15_run_additive : forall (I : Type) (m k : @field R I -> @field R I -> R), sbf I m -> sbf I k ->
+  forall b : R, 0 < b -> (forall x, 0 <= m x x) -> (forall x, m x x = 0 -> x = @fzero R NumR I) -> (forall x, 0 <= k x x) ->
+  forall solve : @field R I -> R -> @field R I, (forall Up dt, dt <> 0 -> stationary_at I m k b dt Up (solve Up dt)) ->
+  forall (g : R) (dts : list R) (st st' : @state R I), (forall dt, In dt dts -> dt <> 0) ->
+  @newmark_run R NumR I g b solve (addS I st st') dts
+  = addS I (@newmark_run R NumR I g b solve st dts) (@newmark_run R NumR I g b solve st' dts).
+Proof. exact run_additive. Qed.
+(* the same over the modelled energies of a mesh: no hypothesis about forms left *)
+Theorem C15_fe_run_scale_invariant : forall (A : Type) (mesh : list (@elem R A)) (rho E nu g b : R),
+  0 < rho -> 0 < E -> -1 < nu < 1 / 2 -> 0 < b -> weights_pos A mesh -> unisolvent A mesh ->
+  forall solve : @nfield R A -> R -> @nfield R A, (forall Up dt, dt <> 0 -> fe_stationary A mesh rho E nu b dt Up (solve Up dt)) ->
+  forall (s : R) (dts : list R) (st : @state R (@dof A)), (forall dt, In dt dts -> dt <> 0) ->
+  @newmark_run R NumR (@dof A) g b solve (scaleS (@dof A) s st) dts = scaleS (@dof A) s (@newmark_run R NumR (@dof A) g b solve st dts).
+Proof. exact fe_run_homogeneous. Qed.
+Theorem C15_fe_run_additive : forall (A : Type) (mesh : list (@elem R A)) (rho E nu g b : R),
+  0 < rho -> 0 < E -> -1 < nu < 1 / 2 -> 0 < b -> weights_pos A mesh -> unisolvent A mesh ->
+  forall solve : @nfield R A -> R -> @nfield R A, (forall Up dt, dt <> 0 -> fe_stationary A mesh rho E nu b dt Up (solve Up dt)) ->
+  forall (dts : list R) (st st' : @state R (@dof A)), (forall dt, In dt dts -> dt <> 0) ->
+  @newmark_run R NumR (@dof A) g b solve (addS (@dof A) st st') dts
+  = addS (@dof A) (@newmark_run R NumR (@dof A) g b solve st dts) (@newmark_run R NumR (@dof A) g b solve st' dts).
+Proof. exact fe_run_additive. Qed.
+
+(* ================================================================================================================
+   PURITY of predict / correct (model/M_C15_Purity.v, proofs/L_C15pure.v).  Store model of the Python statements of the two
+   functions: heap of objects (value, writable?), names -> addresses, `x += e` writes IN PLACE into a writable object (numpy)
+   and rebinds x to a fresh object otherwise (jax arrays, tracers); jit(f) runs the body on fresh immutable copies.
+   c15_predict / c15_correct / c15_*_wrapped are regenerated from the AST of Mechanics.py on every run (gen/CFG_c15.v: statement
+   lists, returned names, and whether DynamicsFunctions(...) receives jit(f) or f).  For EVERY value oracle ev, EVERY writability
+   of the caller's and of fresh objects, every heap and every argument list: no object that existed before the call changes. *)
+Theorem C15_predict_pure : forall (V : Type) (dv : V) (ev : nat -> list V -> V) (fm : nat -> bool) (h : heap V) (args : list nat) (l : nat),
+  (l < length h)%nat -> nth l (fst (call V dv ev fm c15_predict_wrapped c15_predict h args)) (dobj V dv) = nth l h (dobj V dv).
+Proof. exact predict_pure. Qed.
+Theorem C15_correct_pure : forall (V : Type) (dv : V) (ev : nat -> list V -> V) (fm : nat -> bool) (h : heap V) (args : list nat) (l : nat),
+  (l < length h)%nat -> nth l (fst (call V dv ev fm c15_correct_wrapped c15_correct h args)) (dobj V dv) = nth l h (dobj V dv).
+Proof. exact correct_pure. Qed.
+(* the general statements behind them: the static check `safe` (wrapped in jit, or no augmented assignment to a name that may
+   still denote a caller's object) implies purity; immutable caller objects imply purity for any function *)
+Theorem C15_safe_function_pure : forall (V : Type) (dv : V) (ev : nat -> list V -> V) (fm : nat -> bool) (wrapped : bool) (f : fn)
+    (h : heap V) (args : list nat), safe wrapped f = true ->
+  forall l, (l < length h)%nat -> nth l (fst (call V dv ev fm wrapped f h args)) (dobj V dv) = nth l h (dobj V dv).
+Proof. exact safe_pure. Qed.
+Theorem C15_immutable_arguments_pure : forall (V : Type) (dv : V) (ev : nat -> list V -> V) (fm : nat -> bool) (wrapped : bool) (f : fn)
+    (h : heap V) (args : list nat), (forall l, (l < length h)%nat -> snd (nth l h (dobj V dv)) = false) ->
+  forall l, (l < length h)%nat -> nth l (fst (call V dv ev fm wrapped f h args)) (dobj V dv) = nth l h (dobj V dv).
+Proof. exact immutable_pure. Qed.
+(* the jit wrapper is load-bearing: predict as written, handed out WITHOUT jit and called on writable (numpy) arrays, overwrites
+   the caller's U and V; through jit, or on immutable arrays, the same call leaves them alone *)
+Theorem C15_unwrapped_predict_purity_refuted :
+  safe false predict_as_written = false /\
+  exists (ev : nat -> list nat -> nat) (h : heap nat) (args : list nat),
+    nth 0 (fst (call nat 0%nat ev (fun _ => true) false predict_as_written h args)) (dobj nat 0%nat) <> nth 0 h (dobj nat 0%nat) /\
+    nth 1 (fst (call nat 0%nat ev (fun _ => true) false predict_as_written h args)) (dobj nat 0%nat) <> nth 1 h (dobj nat 0%nat) /\
+    (forall l, (l < 4)%nat -> nth l (fst (call nat 0%nat ev (fun _ => true) true predict_as_written h args)) (dobj nat 0%nat) = nth l h (dobj nat 0%nat)) /\
+    (forall l, (l < 4)%nat -> nth l (fst (call nat 0%nat ev (fun _ => true) false predict_as_written (map (fun o => (fst o, false)) h) args)) (dobj nat 0%nat)
+                        = nth l (map (fun o => (fst o, false)) h) (dobj nat 0%nat)).
+Proof. exact unwrapped_predict_mutates_refuted. Qed.
+Example C15_purity_tables_nonvacuous :
+  f_body c15_predict <> [] /\ f_body c15_correct <> [] /\ length (f_ret c15_predict) = 2%nat /\ length (f_ret c15_correct) = 2%nat /\
+  length (f_params c15_predict) = 4%nat /\ length (f_params c15_correct) = 4%nat.
+Proof. exact c15_tables_nontrivial. Qed.
+
 (* NOT PROVED (remaining):
    - unisolvence of the quadrature points for the nodal fields (<=> M positive definite, C15_fe_mass_form_definite_iff_unisolvent)
      is a premise of the translation theorems: it is a rank condition on the shape tables of each (element order, quadrature
@@ -252,6 +367,12 @@ Proof. exact c03_rigid_translation_exact. Qed.
      projection are not modelled (the correspondence covers axisymmetric runs on the implementation only);
    - the premises of the C03 composition (affine elements with nodes at the images of the reference nodes, tables satisfying
      RefIds/TriQuadExact) are C03's / C13's theorems and certificates, not re-proved here;
+   - purity: the store model's account of Python/numpy/jax (`x += e` is in place exactly for writable ndarrays; jit traces on fresh
+     immutable values; np.* functions and arithmetic are free of side effects) is TRUSTED, and checked on the implementation by the
+     purity stream (numpy / read-only numpy / jax state, step-doubling driver); aliasing between DIFFERENT argument arrays
+     (predict(U, U, A, dt)) is covered by the theorem (addresses may repeat) but not by a stream;
+   - linearity at binary64 holds exactly only for power-of-two factors (checked bit-for-bit by the scale streams), otherwise to rounding;
+     for nonlinear materials the step is of course not linear (theorems C15_run_* need the quadratic strain energy);
    - anything in binary64 (the drift observed there is bounded by the solver tolerance, not zero). *)
 
 Example C15_energy_hypotheses_nonvacuous :
@@ -287,3 +408,5 @@ Print Assumptions C15_rigid_translation.
 Print Assumptions C15_mass_total.
 Print Assumptions C15_fe_rigid_translation.
 Print Assumptions C15_mass_total_is_density_times_area.
+Print Assumptions C15_fe_run_scale_invariant.
+Print Assumptions C15_predict_pure.
